@@ -579,6 +579,9 @@ func checkC34(c *core.Ctx) {
 	c.NotDecided("actual block contents and the interleavings themselves")
 	c.Trust("a log whose id is below an already-built block's max id is never picked up by `id > max` again")
 	ruleBlockWorkerLoop(c)
+	// blocks cover id ranges in the order they are built: an import may not insert a log below an
+	// id that is already there (C12/C16's rule, an obligation here too)
+	ruleImportIDOrder(c)
 	cat := c.Catalog()
 	f := cat.Functions["create_block"]
 	if f == nil {
